@@ -116,6 +116,14 @@ namespace sim
 		m_handler = std::move(handler);
 		if (m_expired)
 		{
+			// cancel() takes the timer out of the queue but leaves its expiry
+			// in force: a new wait must still last until that expiry
+			if (m_expiration_time > chrono::high_resolution_clock::now())
+			{
+				m_expired = false;
+				m_io_service->add_timer(this);
+				return;
+			}
 			fire(boost::system::error_code());
 			return;
 		}
